@@ -138,15 +138,15 @@ func extract(ms []tarMember, dir string) error {
 }
 
 func applyHdr(p string, h *tar.Header) error {
+	if err := os.Lchown(p, h.Uid, h.Gid); err != nil {
+		return err
+	}
 	for k, v := range h.PAXRecords {
 		if name, ok := strings.CutPrefix(k, "SCHILY.xattr."); ok {
 			if err := unix.Lsetxattr(p, name, []byte(v), 0); err != nil && h.Typeflag != tar.TypeSymlink {
 				return fmt.Errorf("xattr %s on %s: %v", name, p, err)
 			}
 		}
-	}
-	if err := os.Lchown(p, h.Uid, h.Gid); err != nil {
-		return err
 	}
 	if h.Typeflag != tar.TypeSymlink {
 		if err := unix.Chmod(p, uint32(h.Mode)&07777); err != nil {
